@@ -31,6 +31,7 @@ import (
 	"net/http"
 	"os"
 	"reflect"
+	"runtime"
 	"sort"
 	"sync"
 	"time"
@@ -40,7 +41,7 @@ import (
 	apierrors "k8s.io/apimachinery/pkg/api/errors"
 	"k8s.io/apimachinery/pkg/api/resource"
 	metav1 "k8s.io/apimachinery/pkg/apis/meta/v1"
-	"k8s.io/apimachinery/pkg/runtime"
+	k8sruntime "k8s.io/apimachinery/pkg/runtime"
 	"k8s.io/apimachinery/pkg/types"
 	"k8s.io/apimachinery/pkg/watch"
 	kubefake "k8s.io/client-go/kubernetes/fake"
@@ -116,7 +117,7 @@ type world struct {
 	params  *conf.SchedulerParams
 
 	bclient    client.WithWatch
-	scheme     *runtime.Scheme
+	scheme     *k8sruntime.Scheme
 	reconciler *controllers.BindRequestReconciler
 
 	// fault injection for the reconcile in flight
@@ -133,6 +134,7 @@ type world struct {
 	att             map[string]int  // binding sub-resource calls of the current incarnation
 	fl              map[string]int  // failed reconciles of the current incarnation
 	restarts, flips int
+	barriers        int
 
 	watchMu  sync.Mutex
 	watching map[string]bool
@@ -168,7 +170,7 @@ func newWorld(sc scenario, pods []string) *world {
 
 	// the BindRequest is created by the real cache.Bind; spec.backoffLimit is set on admission (the scheduler
 	// leaves it nil), the store assigns the UID.
-	w.kai.PrependReactor("create", "bindrequests", func(a k8stesting.Action) (bool, runtime.Object, error) {
+	w.kai.PrependReactor("create", "bindrequests", func(a k8stesting.Action) (bool, k8sruntime.Object, error) {
 		br := a.(k8stesting.CreateAction).GetObject().(*schedulingv1alpha2.BindRequest)
 		w.createCalls++ // attempts; an incarnation is counted when a new UID is observed in the store (observeBrs)
 		br.UID = types.UID(fmt.Sprintf("br-%s-%d", br.Spec.PodName, w.createCalls))
@@ -251,7 +253,7 @@ func newWorld(sc scenario, pods []string) *world {
 	}
 
 	// binder side
-	w.scheme = runtime.NewScheme()
+	w.scheme = k8sruntime.NewScheme()
 	if err := corev1.AddToScheme(w.scheme); err != nil {
 		infra("scheme: %v", err)
 	}
@@ -397,8 +399,84 @@ func (w *world) nodeUp() bool {
 	return err == nil
 }
 
+// barrier waits until the scheduler's informers have processed every event emitted so far. Comparing the
+// listers with the store is not enough: a change that is undone before the informer has seen it (node added
+// and deleted again, or deleted and re-created) leaves lister == store while events are still in flight, and
+// the snapshot taken next may see the intermediate state. Each watch stream is FIFO, so a marker object that
+// is created after all real changes - and observed in the lister - proves that everything before it has been
+// processed; it is deleted again (and the deletion observed) before the cycle starts, so no snapshot ever
+// contains it.
+func (w *world) barrier() {
+	if os.Getenv("VERIF_HANDOFF_NO_BARRIER") != "" { // self-test of the harness only
+		return
+	}
+	ctx := context.Background()
+	dl := w.cache.GetDataLister()
+	w.barriers++
+	name := fmt.Sprintf("verif-barrier-%d", w.barriers)
+	const bns = "verif-barrier"
+	if _, err := w.kube.CoreV1().Nodes().Create(ctx, &corev1.Node{ObjectMeta: metav1.ObjectMeta{Name: name}}, metav1.CreateOptions{}); err != nil {
+		infra("barrier node: %v", err)
+	}
+	if _, err := w.kube.CoreV1().Pods(bns).Create(ctx, &corev1.Pod{ObjectMeta: metav1.ObjectMeta{Name: name, Namespace: bns},
+		Spec: corev1.PodSpec{SchedulerName: "verif-barrier"}, Status: corev1.PodStatus{Phase: corev1.PodSucceeded}}, metav1.CreateOptions{}); err != nil {
+		infra("barrier pod: %v", err)
+	}
+	if _, err := w.kai.SchedulingV1alpha2().BindRequests(bns).Create(ctx, &schedulingv1alpha2.BindRequest{
+		ObjectMeta: metav1.ObjectMeta{Name: name, Namespace: bns}, Spec: schedulingv1alpha2.BindRequestSpec{PodName: name, SelectedNode: name}}, metav1.CreateOptions{}); err != nil {
+		infra("barrier bindrequest: %v", err)
+	}
+	seen := func() (n, p, b bool) {
+		nodes, _ := dl.ListNodes()
+		for _, o := range nodes {
+			n = n || o.Name == name
+		}
+		pods, _ := dl.ListPods()
+		for _, o := range pods {
+			p = p || (o.Namespace == bns && o.Name == name)
+		}
+		brs, _ := dl.ListBindRequests()
+		for _, o := range brs {
+			b = b || (o.Namespace == bns && o.Name == name)
+		}
+		return
+	}
+	wait := func(want bool, what string) {
+		deadline := time.Now().Add(syncTimeout)
+		for i := 0; ; i++ {
+			n, p, b := seen()
+			if n == want && p == want && b == want {
+				return
+			}
+			if time.Now().After(deadline) {
+				infra("scheduler informers did not process the barrier (%s) within %v (scenario %s)", what, syncTimeout, w.sc.ID)
+			}
+			if i < 200 {
+				runtime.Gosched()
+			} else {
+				time.Sleep(100 * time.Microsecond)
+			}
+		}
+	}
+	wait(true, "create")
+	if err := w.kube.CoreV1().Nodes().Delete(ctx, name, metav1.DeleteOptions{}); err != nil {
+		infra("barrier node delete: %v", err)
+	}
+	if err := w.kube.CoreV1().Pods(bns).Delete(ctx, name, metav1.DeleteOptions{}); err != nil {
+		infra("barrier pod delete: %v", err)
+	}
+	if err := w.kai.SchedulingV1alpha2().BindRequests(bns).Delete(ctx, name, metav1.DeleteOptions{}); err != nil {
+		infra("barrier bindrequest delete: %v", err)
+	}
+	wait(false, "delete")
+}
+
 // waitInformers blocks until the scheduler's informer caches equal the store (the informers are asynchronous).
 func (w *world) waitInformers() {
+	w.barrier()
+	if os.Getenv("VERIF_HANDOFF_NO_WAIT") != "" { // self-test of the harness only
+		return
+	}
 	ctx := context.Background()
 	dl := w.cache.GetDataLister()
 	deadline := time.Now().Add(syncTimeout)
